@@ -43,6 +43,10 @@ Parameter-coverage additions (audit of families x routines x flags):
   C11.add_many.zero_flags      add_many(e, r, trunc_freq) with exactly-zero partial sums (X + (-X), zero tensors, 0. scalars)
   C11.cross.degenerate         cross of one-hot / zero-slice / +-1 / single-active-mode oracles under every stop criterion
                                (nswp = 0, nswp, e, validation data, m budgets that interrupt a sweep at every core)
+  C11.cross.dr_grid            (gap closure) cross for every pair 0 <= dr_min <= dr_max <= 3 and (4,4), (2,5), (5,5) of the rank-growth
+                               parameters against the number of spare rows r_left*n - r_right of the unfoldings (dr_min / dr_max at or
+                               above it: mode size 2 with rank 1, d = 2, mode size 1, ranks grown to n - 1, saturated, over-ranked),
+                               8 oracles (zero, constant, sum, product, one-hot, zero-slice, +-1, one active mode), 1..3 sweeps
   C11.als.flags                als with lamb=None, weights, allow_skip_cores with unsampled slices, update_sol, rank-adaptive
                                with lamb=None / weights / r_add = 1 / allow_swap, on zero / constant / one-hot / zero-slice data
   C11.anova.class_flags        ANOVA.cores(rel_noise) twice on one object, r above the mode sizes, constant and zero data
@@ -57,7 +61,8 @@ BUDGET = (100, 800)
 BOUNDS = ('shapes gen.shapes(d<=4, n<=4) incl. mode size 1 and d=2; 17 families (11 non-zero incl. zero-padded, duplicated bonds, norm 1e-40 / 1e+40; 6 exactly-zero); '
           'ranks 1..4 (+3 over-ranked); truncate: e in {1e-10,1e-2,10}, cap in {1e12,1,2}, all 8 flag combinations; '
           'all pivots; qtt: d<=4, q<=3; cross/als/anova: d=2..4, zero / constant / one-hot / zero-slice data, full / repeated / sparse samples, '
-          'every stop criterion of cross (6 budgets m), 9 option sets of als, zero tensors x all truncate flags x 4 (e, cap)')
+          'every stop criterion of cross (6 budgets m), 9 option sets of als, zero tensors x all truncate flags x 4 (e, cap); '
+          'cross (dr_min, dr_max) in all 13 pairs {0<=a<=b<=3, (4,4), (2,5), (5,5)} x 8 shapes (n<=4, d<=4; thorough 14, n<=5, d<=6) x start ranks 1..3')
 
 NONZERO = ('gauss', 'int', 'rank1', 'over', 'rankdef', 'const', 'cancel')
 ZERO = ('zero_all', 'zero_first', 'zero_mid', 'zero_last', 'const0', 'mul0')
@@ -546,6 +551,43 @@ def cross_degenerate(shape, kind, stop, r0, dr_min, dr_max, seed, with_cache, bu
     return PASS
 
 
+@clause('C11.cross.dr_grid', funcs=('cross.cross', 'cross._iter', 'utils._maxvol', 'maxvol.maxvol', 'maxvol.maxvol_rect'))
+def cross_dr_grid(shape, kind, r0, dr_min, dr_max, nswp, seed, with_cache):
+    """cross for every pair 0 <= dr_min <= dr_max of the rank-growth parameters ("dr_min should be no bigger than
+    dr_max" is the only documented restriction), in particular with dr_min / dr_max at or ABOVE the number of spare
+    rows r_left * n - r_right of an unfolding: mode size 2 with rank 1, d = 2, mode size 1, ranks that have grown to
+    n - 1 during earlier sweeps, saturated and over-ranked cores.  Oracles: zero, constant, sum(i) + 1, prod(i + 1) and the
+    degenerate ones of _oracle.  The result is a well-formed finite tensor with finite dense export and finite info."""
+    if kind == 'zero':
+        f = lambda I: np.zeros(len(I))
+    elif kind == 'const':
+        f = lambda I: np.full(len(I), 3.)
+    elif kind == 'sum':
+        f = lambda I: np.sum(np.asarray(I), axis=1) + 1.
+    elif kind == 'prod':
+        f = lambda I: np.prod(np.asarray(I) + 1., axis=1)
+    else:
+        f = _oracle(shape, kind, seed)
+    Y0 = gen.tt(shape, r0, seed, 'gauss')
+    info = {}
+    what = f'cross({kind}, shape {shape}, rank-{r0} start, dr_min={dr_min}, dr_max={dr_max}, nswp={nswp})'
+    try:
+        Y = teneva.cross(f, Y0, nswp=nswp, dr_min=dr_min, dr_max=dr_max, info=info, cache={} if with_cache else None, log=False)
+    except ValueError as ex:
+        return FAIL(f'{what} raises ValueError: {ex}')
+    msg = _bad(Y, shape, what)
+    if msg:
+        return FAIL(msg)
+    if not np.all(np.isfinite(gen.dense(Y))):
+        return FAIL(f'{what}: dense export not finite')
+    for k in ('e', 'e_vld', 'r'):
+        if not _finite_scalar(info[k]):
+            return FAIL(f'{what}: info[{k}] = {info[k]!r}')
+    if info.get('nswp') != nswp and info.get('stop') == 'nswp':
+        return FAIL(f"{what}: stop 'nswp' after {info.get('nswp')} sweeps")
+    return PASS
+
+
 def _samples(shape, how, seed):
     g = gen.rng('C11.samples', shape, how, seed)
     I = gen.all_indices(shape)
@@ -896,6 +938,20 @@ def cases(tier, seed):
             for budget in (5, 9, 14, 20, 27, 35, 45, 60, 80) if big else (5, 12, 20, 30, 45, 70):
                 yield 'C11.cross.degenerate', dict(shape=shape, kind=kind, stop='m', r0=1, dr_min=1, dr_max=1 + budget % 2,
                                                    seed=11, with_cache=(budget % 3 == 0), budget=budget)
+    # rank-growth parameters against the number of spare rows of the unfoldings: every pair 0 <= dr_min <= dr_max <= 3 and
+    # (4, 4), (2, 5), (5, 5) x small / QTT-like / d = 2 / mode-size-1 shapes x start ranks 1, 2, 3 (over-ranked)
+    drs = [(a, b) for b in range(4) for a in range(b + 1)] + [(4, 4), (2, 5), (5, 5)]
+    kinds = ('zero', 'const', 'sum', 'prod', 'onehot', 'zero_slice', 'sign', 'axis')
+    k = 0
+    for shape in ([2, 2], [2, 3], [3, 2, 2], [2, 2, 2, 2], [1, 2, 1], [4, 3], [2, 1, 2], [3, 3, 3]) + \
+            (([5, 4, 3], [2] * 6, [3, 2], [1, 1], [2, 5, 2], [4, 4, 4, 4]) if big else ()):
+        for r0 in (1, 2, 3):
+            for (a, b) in drs:
+                for kind in (kinds if big else (kinds[k % 8],)):
+                    if big or (r0 < 3 and (a >= 2 or k % 3 == 0)) or (r0 == 3 and a >= 2 and k % 2):
+                        yield 'C11.cross.dr_grid', dict(shape=shape, kind=kind, r0=r0, dr_min=a, dr_max=b, nswp=1 + k % 3,
+                                                        seed=11 + k % 4, with_cache=(k % 5 == 0))
+                    k += 1
     for shape in ([3, 4], [4, 2, 3], [1, 3, 1], [2, 2, 2, 2]) + (([3, 4, 3], [4, 1, 2]) if big else ()):
         for kind in ('zero', 'const', 'onehot', 'zero_slice'):
             for variant in ('lamb_none', 'w', 'w_lamb', 'skip_cores', 'ad_lamb_none', 'ad_w', 'ad_r_add', 'ad_swap',
